@@ -90,7 +90,7 @@ func (e *Engine) inRepo(t types.Type) bool {
 var purePkgs = []string{"go.uber.org/zap", "github.com/prometheus/", "fmt", "errors", "log", "strings", "strconv", "encoding/hex", "encoding/json",
 	"github.com/mr-tron/base58", "unicode", "sort", "math", "time", "github.com/ethereum/go-ethereum/common", "github.com/ethereum/go-ethereum/crypto", "bytes", "math/big",
 	"google.golang.org/protobuf/proto", "github.com/alephium/wormhole-fork/node/pkg/supervisor", "github.com/alephium/wormhole-fork/node/pkg/reporter", "context",
-	"google.golang.org/grpc", "regexp", "github.com/google/uuid", "github.com/eko/gocache/v3/store", "github.com/libp2p/go-libp2p/core/peer", "github.com/ethereum/go-ethereum/ethclient", "github.com/ethereum/go-ethereum/accounts/abi/bind", "github.com/alephium/wormhole-fork/node/pkg/ethereum/abi", "github.com/alephium/wormhole-fork/node/pkg/version", "github.com/alephium/wormhole-fork/node/pkg/readiness", "sync", "sync/atomic"}
+	"google.golang.org/grpc", "regexp", "github.com/google/uuid", "github.com/eko/gocache/v3/store", "github.com/libp2p/go-libp2p/core/peer", "github.com/ethereum/go-ethereum/ethclient", "github.com/ethereum/go-ethereum/event", "github.com/ethereum/go-ethereum/accounts/abi/bind", "github.com/alephium/wormhole-fork/node/pkg/ethereum/abi", "github.com/alephium/wormhole-fork/node/pkg/version", "github.com/alephium/wormhole-fork/node/pkg/readiness", "sync", "sync/atomic"}
 
 // isPurePkg: callee belongs to a package whose functions are modelled as returning
 // arbitrary values without touching the modelled heap (logging, metrics, formatting,
